@@ -1,1 +1,112 @@
-From SF Require Import Base.Prelude Unsized.Types Unsized.Parse Unsized.Machine Unsized.Ops.
+(* C01 - Unsized values behave like their owned models under any operation history.  Statements only.
+
+   FULL statement (DESIGN.md section 5, C01): for every shape of the universe `ty`, every well-formed value
+   and every finite history of public operations at any nesting depth, the pointer machine (Unsized/Machine.v,
+   Ops.v) succeeds / fails exactly when the owned model does and every observation agrees.
+   PROVED here (named ..._flat): the full refinement for FLAT shapes - generated structs whose fields are
+   fixed-size values, lists of any element type and prefix width, and a trailing RemainingBytes - under
+   histories of insert_all / remove_range (push, insert, pop, remove, clear are instances) with interleaving
+   between sibling fields, unbounded in sizes and steps.  For lists of unsized elements, maps, enums and
+   whole-value replacement the machine is tied to the implementation by the correspondence check only,
+   plus the shape-generic lemmas below (the shift lemma covers the repaired D7 branch for every shape). *)
+From SF Require Import Base.Prelude Gen.Generated Unsized.Types Unsized.Parse Unsized.Machine Unsized.Ops.
+From SF Require Import Unsized.Proofs.EncodeParse Unsized.Proofs.Mem Unsized.Proofs.Notify Unsized.Proofs.Flat.
+
+(* one operation: same success, and the new machine state represents the owned model's new value *)
+Theorem C01_flat_step_refines :
+  forall ts vs s top o vs',
+    Rep ts vs s top -> m_refuse s <> 1 -> ostep (m_cap s) ts vs o = Some vs' ->
+    exists s', mstep ts s top o = Ok (s', PStruct (lay ts vs' 0), []) /\
+               Rep ts vs' s' (PStruct (lay ts vs' 0)) /\ m_cap s' = m_cap s /\ m_refuse s' = m_refuse s.
+Proof. exact flat_step_refines. Qed.
+
+(* any history, by induction on its length *)
+Theorem C01_flat_run_refines :
+  forall ts h vs s top vs',
+    Rep ts vs s top -> m_refuse s <> 1 -> orun (m_cap s) ts vs h = Some vs' ->
+    exists s', mrun ts s top h = Ok (s', PStruct (lay ts vs' 0)) /\ Rep ts vs' s' (PStruct (lay ts vs' 0)).
+Proof. exact flat_run_refines. Qed.
+
+(* failures agree with the owned model's (Vec: index, range; the length prefix; the growth allowance), and
+   an `Err` outcome of the machine is returned before any write *)
+Theorem C01_flat_insert_index_error :
+  forall tsA tsB vsA vsB c lw items, length tsA = length vsA -> forall s top idx new,
+    Rep (tsA ++ TList c lw :: tsB) (vsA ++ VList items :: vsB) s top -> zlen items < idx ->
+    list_insert (TStruct (tsA ++ TList c lw :: tsB)) s top [PF (length tsA)] idx new = Err E_INDEX.
+Proof. exact list_insert_index_error. Qed.
+
+Theorem C01_flat_insert_prefix_error :
+  forall tsA tsB vsA vsB c lw items, length tsA = length vsA -> forall s top idx new,
+    Rep (tsA ++ TList c lw :: tsB) (vsA ++ VList items :: vsB) s top -> idx <= zlen items ->
+    256 ^ Z.of_nat lw <= zlen items + zlen new ->
+    list_insert (TStruct (tsA ++ TList c lw :: tsB)) s top [PF (length tsA)] idx new = Err E_TOPRIM.
+Proof. exact list_insert_prefix_error. Qed.
+
+Theorem C01_flat_remove_range_error :
+  forall tsA tsB vsA vsB c lw items, length tsA = length vsA -> forall s top st en,
+    Rep (tsA ++ TList c lw :: tsB) (vsA ++ VList items :: vsB) s top -> en < st ->
+    list_remove (TStruct (tsA ++ TList c lw :: tsB)) s top [PF (length tsA)] st en = Err E_RANGE.
+Proof. exact list_remove_range_error. Qed.
+
+Theorem C01_flat_remove_index_error :
+  forall tsA tsB vsA vsB c lw items, length tsA = length vsA -> forall s top st en,
+    Rep (tsA ++ TList c lw :: tsB) (vsA ++ VList items :: vsB) s top -> st <= en -> zlen items < en ->
+    list_remove (TStruct (tsA ++ TList c lw :: tsB)) s top [PF (length tsA)] st en = Err E_INDEX.
+Proof. exact list_remove_index_error. Qed.
+
+(* every observation in a represented state equals the owned value: through the still-live accessors, as
+   raw bytes, and through a fresh parse (shared borrow / owned conversion) *)
+Theorem C01_flat_observable :
+  forall ovf ts vs s top, Rep ts vs s top ->
+    owned_ptr ovf (TStruct ts) (m_mem s) top = Ok (VStruct vs) /\
+    ztake (m_len s) (m_mem s) = encode (TStruct ts) (VStruct vs) /\
+    m_len s = byte_size (TStruct ts) (VStruct vs) /\
+    parse ovf (TStruct ts) (ztake (m_len s) (m_mem s)) = Ok (VStruct vs, m_len s).
+Proof. exact rep_observable. Qed.
+
+(* releasing and re-borrowing: the pointers derived from canonical bytes are the layout *)
+Theorem C01_flat_reborrow :
+  forall ovf ts vs s,
+    forallb leaf ts = true -> ty_ok true (TStruct ts) = true -> wf (TStruct ts) (VStruct vs) = true ->
+    (exists junk, m_mem s = encs ts vs ++ junk) -> m_len s = zlen (encs ts vs) ->
+    exists top, get_ptr ovf (TStruct ts) (m_mem s) 0 (m_len s) = Ok (top, m_len s) /\ Rep ts vs s top.
+Proof. exact rep_borrow. Qed.
+
+(* ALL shapes: a resize located before a pointer tree shifts the whole tree, recorded inner pointers of
+   lists of unsized elements included (the repaired "change happened before me" branch, D7) *)
+Theorem C01_notify_shift :
+  forall t p src c m, after src t p = true -> notify t p src c m = Ok (shift c p, m).
+Proof. exact notify_shift. Qed.
+
+(* non-vacuity, and the D7 history on a nested shape evaluated on the machine: touch an element of a list of
+   unsized elements, grow a preceding sibling, touch again - no panic, canonical bytes *)
+Example C01_nonvacuous_flat :
+  let ts := [TFixed (FAny 2); TList (FAny 1) 4; TList (FAny 2) 1; TRem] in
+  let vs := [VBytes [1; 2]; VList [[5]]; VList []; VBytes [9]] in
+  let s := mkMach (encs ts vs ++ zrepeat 0 10240) (zlen (encs ts vs)) 0 0 in
+  orun (m_cap s) ts vs [FInsert 2 0 [[7; 7]; [8; 8]]; FInsert 1 1 [[6]]; FRemove 2 0 1; FRemove 1 0 2]
+  = Some [VBytes [1; 2]; VList []; VList [[8; 8]]; VBytes [9]].
+Proof. vm_compute. reflexivity. Qed.
+
+Example C01_d7_history_on_the_machine :
+  let t := TStruct [TList (FAny 1) 4; TUList (TList (FAny 1) 4) 0; TList (FAny 1) 4] in
+  let v := VStruct [VList [[1]]; VUList [([], VList [[5]; [6]]); ([], VList [])]; VList [[9]]] in
+  let bs := encode t v in
+  let s0 := mkMach (bs ++ zrepeat 0 10240) (zlen bs) 0 0 in
+  match get_ptr true t (m_mem s0) 0 (m_len s0) with
+  | Ok (top, _) =>
+      match ulist_touch true t s0 top [PF 1] 0 with
+      | Ok (s1, top1, _) =>
+          match list_insert t s1 top1 [PF 0] 1 [[7]; [7]; [7]] with
+          | Ok (s2, top2, _) =>
+              match ulist_touch true t s2 top2 [PF 1] 1 with
+              | Ok (s3, top3, _) => top_check s3 top3 = true
+              | _ => False
+              end
+          | _ => False
+          end
+      | _ => False
+      end
+  | _ => False
+  end.
+Proof. vm_compute. reflexivity. Qed.
